@@ -227,6 +227,30 @@ theorem no_sleeping_proc_with_work (ns np : Nat) (st : St) (hr : TS.Reachable st
   have inv := ginv_reachable ns np st hr
   exact ⟨inv.jn, inv.pq⟩
 
+/-- the full statement of "no processor asleep while work is queued", for a step relation `stp` -/
+def NoSleeperWithWork (stp : St → Op → Option St) (ns np : Nat) : Prop :=
+  ∀ st, TS.Reachable stp (init ns np) st →
+    st.parkedQ ≠ [] → st.charged.length ≤ st.procs.countP isWoken
+
+/-- /repo's makeCharged (one Signal per charge) satisfies it … -/
+theorem no_sleeper_with_work_holds (ns np : Nat) : NoSleeperWithWork step? ns np :=
+  fun st hr => (no_sleeping_proc_with_work ns np st hr).1
+
+/-- … a makeCharged that signals only when `charged` was empty does not: two processors asleep, two
+    streams charged back to back before the first woken processor pops — the second charge wakes nobody,
+    the woken processor pops the LAST charged stream (LIFO), stream 0 stays in `charged` while processor 1
+    sleeps un-notified (and every later charge finds the list non-empty). Replayed on the real streamer
+    by the burst schedules (`c04.stream 2 2 J0 J1 U0.1 …`). -/
+theorem signal_only_when_empty_counterexample : ¬ NoSleeperWithWork stepIfEmpty? 2 2 := by
+  intro h
+  have hr : TS.Reachable stepIfEmpty? (init 2 2)
+      { streams := [{ q := [⟨10, 1, false⟩], cur := 1, popper := none },
+                    { q := [⟨20, 1, false⟩], cur := 1, popper := some 0 }],
+        charged := [0], parkedQ := [1], procs := [.busy, .parked] } :=
+    ⟨[.park 0, .park 1, .put 0 10 1, .charge 0, .put 1 20 1, .charge 1, .pop 0 1], by decide⟩
+  have := h _ hr (by decide)
+  revert this; decide
+
 theorem charge_signals (ns np : Nat) (st st' : St) (s p : Nat) (rest : List Nat)
     (hr : TS.Reachable step? (init ns np) st) (hq : st.parkedQ = p :: rest)
     (hs : step? st (.charge s) = some st') :
